@@ -132,10 +132,23 @@ def client_programs(c):
       elif x < 0.94:
         tok[0] += 1
         prog.append(('add_trial', tok[0], rng.random() < 0.2))
-      elif x < 0.97:
+      elif x < 0.965:
         prog.append(('check_early_stopping', tid))
-      else:
+      elif x < 0.985:
         prog.append(('list',))
+      elif x < 0.993:
+        prog.append(('delete_study',))          # later steps act on a study that is gone
+      else:
+        prog.append(('materialize_state',))
+    if rng.random() < 0.25:
+      # the tail of a quarter of the programs: the study is deleted (by another worker, say) and the
+      # handle is used again - every deployment must report the same thing
+      prog.append(('delete_study',))
+      tok[0] += 1
+      tail = [('suggest', 1, 'w1', {'kind': 'ok', 'sugg': [{'params': tok[0], 'md': []}], 'delta': []}), ('get_trial', 1), ('list',),
+              ('materialize_state',), ('optimal',), ('add_trial', tok[0] + 1, False), ('set_state', 'ACTIVE'), ('update_metadata', None)]
+      rng.shuffle(tail)
+      prog += tail[:rng.randrange(2, 6)]
     return prog
 
   def run_program(dep, prog):
@@ -211,6 +224,11 @@ def client_programs(c):
             out.append(['should_stop', clients.Trial(study._client, step[1]).check_early_stopping()])  # pylint: disable=protected-access
           elif op == 'list':
             out.append(['list', [(t.id, t.status.name) for t in study.trials().get()]])
+          elif op == 'delete_study':
+            study.delete()
+            out.append('deleted')
+          elif op == 'materialize_state':
+            out.append(['state', study.materialize_state().name])
         except Exception as e:  # pylint: disable=broad-except
           out.append(obs_exc(e))
     finally:
@@ -251,8 +269,11 @@ def client_programs(c):
     d = deploy.Deployment(kind, 'ram')
     try:
       prog = [('create',), ('get_trial', 99), ('suggest', 1, 'w', {'kind': 'ok', 'sugg': [{'params': 1, 'md': []}], 'delta': []}),
-              ('complete', 1, 'm'), ('set_state', 'COMPLETED'), ('suggest', 1, 'w2', {'kind': 'ok', 'sugg': [{'params': 2, 'md': []}], 'delta': []}), ('list',)]
+              ('complete', 1, 'm'), ('set_state', 'COMPLETED'), ('suggest', 1, 'w2', {'kind': 'ok', 'sugg': [{'params': 2, 'md': []}], 'delta': []}), ('list',),
+              ('delete_study',), ('suggest', 1, 'w3', {'kind': 'ok', 'sugg': [{'params': 3, 'md': []}], 'delta': []}), ('get_trial', 1), ('materialize_state',)]
       o = run_program(d, prog)
+      witness_outs = globals().setdefault('_c08_witness', {})
+      witness_outs[kind] = o
       if o[1] != 'ResourceNotFoundError':
         c.prop_fail('promised-exception-missing:get_trial', 'Study.get_trial of a missing trial raised %s instead of ResourceNotFoundError in the %s deployment' % (o[1], kind), {'deployment': kind, 'program': prog[:2], 'observations': o[:2]})
       if o[5] != ['trials', []]:
@@ -261,6 +282,12 @@ def client_programs(c):
         c.prop_fail('failed-call-changed-data:remote', 'a refused call (suggest on a COMPLETED study) created trials in the %s deployment: %s' % (kind, o[6]), {'deployment': kind, 'program': prog, 'observations': o})
     finally:
       d.close()
+  wo = globals().get('_c08_witness', {})
+  for kind in ('grpc', 'split'):
+    if kind in wo and 'local' in wo and wo[kind] != wo['local']:
+      i = next(i for i, (a, b) in enumerate(zip(wo['local'], wo[kind])) if a != b)
+      c.prop_fail('client-observation-differs:deleted-study', 'on a deleted study the client observes %s in-process but %s through the %s deployment (step %d)' % (
+          json.dumps(wo['local'][i])[:120], json.dumps(wo[kind][i])[:120], kind, i), {'deployment': kind, 'local': wo['local'], kind: wo[kind]})
 
 
 def run(c):
